@@ -7,7 +7,7 @@ import convlib
 import vcfgen
 
 ID = "C02"
-LEAN_MODULES = ["B2Z.Props.C02"]
+LEAN_MODULES = ["B2Z.Props.C02", "B2Z.Props.C01"]
 THEOREMS = [
     "B2Z.Schema.C02_dims_coherent", "B2Z.Schema.C02_variant_sample_axes", "B2Z.Schema.C02_sentinels_representable",
     "B2Z.Schema.C02_dims_counterexample_unrepaired", "B2Z.Pipe.C02_chunk_grid_complete",
